@@ -76,6 +76,10 @@ pub struct Work {
     pub readers: Vec<Vec<ROp>>,
     /// each reload step: keys edited+notified before the barrier
     pub reloads: Vec<Vec<usize>>,
+    /// other threads calling hot_reload at the same time (number of calls each makes): the main caller must still be
+    /// released only by the answer to its own request
+    #[serde(default)]
+    pub co_callers: Vec<u8>,
 }
 
 pub struct C07;
@@ -115,7 +119,8 @@ impl Property for C07 {
             })
             .collect();
         let reloads = (0..1 + g.below(6)).map(|_| (0..1 + g.below(2)).map(|_| g.below(nkeys as u64) as usize).collect()).collect();
-        (knobs, serde_json::to_value(Work { nkeys, static_mode: g.chance(1, 4), readers, reloads }).unwrap())
+        let co_callers: Vec<u8> = if g.chance(1, 3) { (0..1 + g.below(2)).map(|_| 1 + g.below(4) as u8).collect() } else { vec![] };
+        (knobs, serde_json::to_value(Work { nkeys, static_mode: g.chance(1, 4), readers, reloads, co_callers }).unwrap())
     }
     fn execute(&self, case: &Case) -> Outcome {
         let w: Work = serde_json::from_value(case.work.clone()).unwrap();
@@ -145,6 +150,16 @@ impl Property for C07 {
             if w.reloads.len() > 1 {
                 let mut x = w.clone();
                 x.reloads.remove(i);
+                out.push(x);
+            }
+        }
+        for i in 0..w.co_callers.len() {
+            let mut x = w.clone();
+            x.co_callers.remove(i);
+            out.push(x);
+            if w.co_callers[i] > 1 {
+                let mut x = w.clone();
+                x.co_callers[i] -= 1;
                 out.push(x);
             }
         }
@@ -282,6 +297,22 @@ fn scenario(w: Work) {
                     }
                 }
             });
+        }
+        if !w.static_mode {
+            for (i, n) in w.co_callers.iter().enumerate() {
+                let calls = calls.clone();
+                let n = *n;
+                s.spawn(&format!("co{i}"), move || {
+                    for _ in 0..n {
+                        let a = detsim::seq();
+                        cache.hot_reload();
+                        let b = detsim::seq();
+                        calls.lock().unwrap().push((a, b));
+                        detsim::count("reach.concurrent_hot_reload_caller");
+                        detsim::thread::yield_now();
+                    }
+                });
+            }
         }
         // the stream of reloads (main thread holds no guard)
         let mut ver = 1u64;
